@@ -33,18 +33,20 @@ def bounds(tier):
 def the_tree():
     return {
         'a.o': F(1), 'b.o': F(1), 'keep.o': F(1), 'main.c': F(1), 'README': F(1), 'a.old': F(1), 'xo': F(1), 'name': F(1),
-        'tmp1': F(1), 'tmp22': F(1), '.hidden.o': F(1),
+        'tmp1': F(1), 'tmp22': F(1), '.hidden.o': F(1), 'a!b.txt': F(1), 'c.txt': F(1),
         'build': D({'out.o': F(1), 'gen.c': F(1), 'keep.o': F(1), 'deep': D({'x.o': F(1), 'name': F(1)})}),
         'src': D({'b.o': F(1), 'main.c': F(1), 'name': F(1), 'sub': D({'c.o': F(1), 'name': F(1), 'tmp1': F(1), 'tmp22': F(1)})}),
         'docs': D({'name': D({'inner': F(1)}), 'build': F(1)}),
     }
 
 
-ATOMS = ['name', '*.o', 'build/', 'src/*.o', '**/name', 'tmp?', '/main.c', '# comment', '', 'build', 'src/sub', '*.c']
-NEGS = ['!keep.o', '!*.o', '!build/', '!src/*.o', '!**/name', '!/main.c', '!build/keep.o', '!src/sub']
+ATOMS = ['name', '*.o', 'build/', 'src/*.o', '**/name', 'tmp?', '/main.c', '# comment', '', 'build', 'src/sub', '*.c', '*.txt']
+NEGS = ['!keep.o', '!*.o', '!build/', '!src/*.o', '!**/name', '!/main.c', '!build/keep.o', '!src/sub', '!a!b.txt']
 HG_ATOMS = [('glob', 'name'), ('glob', '*.o'), ('glob', 'build'), ('glob', 'src/*.o'), ('glob', '**/name'), ('glob', 'tmp?'),
             ('regexp', r'\.o$'), ('regexp', '^build/'), ('regexp', 'name'), ('regexp', r'^src/.*\.c$'), ('regexp', 'tmp[0-9]$'),
-            ('regexp', '^main'), ('glob', '# comment'), ('glob', 'src/sub')]
+            ('regexp', '^main'), ('glob', '# comment'), ('glob', 'src/sub'),
+            # a trailing slash and a trailing comment change nothing
+            ('glob', 'build/'), ('glob', '*.o # object files'), ('regexp', r'\.c$ # sources'), ('glob', 'src/sub/  # a directory')]
 
 
 def pattern_lists(tier, tool):
@@ -124,8 +126,11 @@ def docker_ignored(lst, rel):
 
 def hg_ignored(lst, rel):
     for syn, pat in lst:
-        if pat.startswith('#') or not pat.strip():
+        pat = re.sub(r'(?<!\\)#.*$', '', pat).rstrip()      # the rest of a line after # is a comment
+        if not pat:
             continue
+        if syn == 'glob':
+            pat = pat.rstrip('/')
         for x in prefixes(rel):
             if syn == 'glob':
                 if re.match('(?:|.*/)' + glob_re(pat, single='.') + '(?:/|$)', x + ('/' if False else '')):
